@@ -396,7 +396,9 @@ def domain_check(ctx, sf, ext, machine, key, dom):
     bad = None
     n = 0
     for v in dom:
-        spec = '%s=%d' % (key, v)
+        # register and state names are matched whatever their case (both writers lower-case the name): every other value is written
+        # with the name in upper case
+        spec = '%s=%d' % (key.upper() if n % 2 else key, v)
         if key in HALVES:
             pair, hi = HALVES[key]
             regs, state = (['%s=%d' % (pair, 0x5AA5), spec], [])
